@@ -200,6 +200,10 @@ def main():
                 pr = check_win([tuple(r) for r in c["records"]], c["slack"])
             elif c["kind"] == "wintable":
                 pr = check_win_table(base, c["recursive"])
+            elif c["kind"] == "fse-sim":
+                import subprocess
+                r = subprocess.run([sys.executable, os.path.join(os.path.dirname(os.path.abspath(__file__)), "c20_fsevents_sim.py")], capture_output=True, text=True)
+                pr = [r.stdout[-300:]] if r.returncode else []
             elif c["kind"] == "known":
                 pr = [w for k, w in known_win(base) if k == c["key"]]
             else:
@@ -236,6 +240,15 @@ def main():
                 bat.fail("C20.windows-table", pr[0], {"kind": "wintable", "recursive": recursive, "problems": pr[:2]}, "WindowsApiEmitter.queue_events")
         for key, what in known_win(base):
             bat.fail(key, what, {"kind": "known", "key": key}, "WindowsApiEmitter.queue_events")
+        # FSEventsEmitter.queue_events has no contract (not applicable: relative to Apple's flag coalescing).  Bounded
+        # stand-in only: six operation histories rendered into native batches by a small documented-semantics
+        # simulator (written independently of the checks), replayed against the real final tree.
+        import subprocess
+        sim = os.path.join(os.path.dirname(os.path.abspath(__file__)), "c20_fsevents_sim.py")
+        r = subprocess.run([sys.executable, sim], capture_output=True, text=True, env=dict(os.environ), timeout=120)
+        bat.case("fsevents-replay-scenarios")
+        if r.returncode != 0:
+            bat.fail("C20.fsevents-replay", "FSEvents scenarios: replaying the normalized stream does not reproduce the tree: " + (r.stdout + r.stderr)[-300:].replace("\n", " | "), {"kind": "fse-sim"}, "FSEventsEmitter.queue_events")
         bat.case("fsevents-filter")
         pr = check_fse()
         if pr:
